@@ -137,12 +137,28 @@ def run(ctx: Context) -> None:
            "Content-Length (bytes body, = len) / Transfer-Encoding: chunked (iterator body) are appended only when both are absent and a body is given")
     rets = [norm(r.value) for r in own_nodes(inc.node) if isinstance(r, ast.Return) and r.value is not None]
     rep.ob("C03.R6", "shared|include_request_headers|returns", rets == ["headers"], where(inc), "the (possibly extended) list is returned")
+    # the helper extends its argument in place (`headers += ...`): the argument must be a fresh list, never the caller's own object
+    enf = ctx.prog.func("httpcore._models", "enforce_headers")
+    stale = []
+    for r in own_nodes(enf.node):
+        if isinstance(r, ast.Return) and r.value is not None:
+            v = r.value
+            fresh = isinstance(v, (ast.ListComp, ast.List)) or (isinstance(v, ast.Call) and norm(v.func) == "list")
+            if not fresh:
+                stale.append(r)
+    rep.ob("C03.R6", "shared|enforce_headers|returns-fresh-list", not stale, where(enf, stale[0] if stale else None),
+           "enforce_headers returns a new list on every path" if not stale else
+           f"enforce_headers can return `{ast.unparse(stale[0].value)[:60]}` - the caller's own container: include_request_headers then appends the framing header to it IN PLACE, "
+           "so a header list reused for a second request carries the previous request's Content-Length")
     for tree in ("async", "sync"):
         N = ctx.names(tree)
         for m in ("request", "stream"):
             f = N.func("interfaces", f"AsyncRequestInterface.{m}")
             calls = [c for c in own_nodes(f.node) if isinstance(c, ast.Call) and norm(c.func) == "include_request_headers"]
             ok = len(calls) == 1 and [norm(a) for a in calls[0].args] == ["headers"] and {k.arg: norm(k.value) for k in calls[0].keywords} == {"url": "url", "content": "content"}
+            if ok:
+                src = [norm(a) for a in ctx.prov.expand(calls[0].args[0], f, calls[0], depth=1)]
+                ok = src == ["enforce_headers(headers,name='headers')"]
             rq = [c for c in own_nodes(f.node) if isinstance(c, ast.Call) and norm(c.func) == "Request"]
             okq = len(rq) == 1 and {k.arg: norm(k.value) for k in rq[0].keywords} == {"method": "method", "url": "url", "headers": "headers", "content": "content", "extensions": "extensions"}
             rep.ob("C03.R6", fkey(tree, f, "request-assembly"), ok and okq, where(f), "the request is assembled from the enforced arguments with the default headers included")
